@@ -9,6 +9,9 @@ import (
 
 	"verif/ev"
 	"verif/gen"
+	"verif/gram"
+	"verif/mc"
+	"verif/ref"
 )
 
 // c20EndToEnd: a grammar spelling a rune literal is run through the real generator; the emitted transition test of
@@ -168,6 +171,61 @@ func c20EndToEnd(t *gen.Tools, r *ev.Run, root, tier string) {
 			return
 		}
 		r.Distinct("e2em" + oneLine(o.Text))
+	})
+	// a literal on an encoding boundary next to a range that contains it (the generator splits the range around the
+	// literal: the code point must survive that too): emitted tables against the reference automaton to closure
+	type edgeCase struct {
+		text string
+		g    *gram.Grammar
+	}
+	var edges []edgeCase
+	for _, cp := range []rune{0x7f, 0x80, 0x7ff, 0x800, 0xd7ff, 0xe000, 0xfffd, 0xffff, 0x10000, 0x10fffe, 0x10ffff} {
+		var spell []string
+		if cp != 0x7f {
+			spell = append(spell, "'"+string(cp)+"'")
+		}
+		spell = append(spell, fmt.Sprintf(`'\U%08x'`, cp))
+		if cp <= 0xffff {
+			spell = append(spell, fmt.Sprintf(`'\u%04X'`, cp))
+		}
+		type rg struct{ lo, hi rune }
+		for _, r := range []rg{{0, 0x10ffff}, {cp - 2, cp}, {cp, cp + 2}, {cp - 1, cp + 1}} {
+			if r.hi > 0x10ffff || r.lo < 0 || (r.lo >= 0xd800 && r.lo <= 0xdfff) || (r.hi >= 0xd800 && r.hi <= 0xdfff) {
+				continue
+			}
+			for _, sp := range spell {
+				text := fmt.Sprintf("t0 : %s ;\nt1 : %s-%s 'x' ;\n", sp, gram.RuneLit(r.lo), gram.RuneLit(r.hi))
+				g := &gram.Grammar{Lex: []gram.LexDef{{Name: "t0", Kind: "tok", P: gram.Lit(cp)}, {Name: "t1", Kind: "tok", P: gram.Seq(gram.Rng(r.lo, r.hi), gram.Lit('x'))}}}
+				edges = append(edges, edgeCase{text, g})
+			}
+		}
+	}
+	etexts := make([]string, len(edges))
+	for i, e := range edges {
+		etexts[i] = e.text
+	}
+	sw.run(etexts, nil, true, false, func(o *GenOut) {
+		mu.Lock()
+		defer mu.Unlock()
+		r.Add("end_to_end_edge_literal_in_range_grammars", 1)
+		r.Add("evaluations", 1)
+		e := edges[o.Idx]
+		if o.Res.Hang || o.Res.Exit != 0 {
+			r.Violate("c20", "e2e-edge "+oneLine(o.Text), fmt.Sprintf("gocc refuses a grammar of valid rune literals (exit %d): %s\n  grammar: %s", o.Res.Exit, oneLine(o.Res.Stdout+o.Res.Stderr), oneLine(o.Text)), map[string]any{"subject": "end-to-end", "grammar": o.Text})
+			return
+		}
+		if o.ReadErr != "" {
+			ev.Inconsistent("table reader cannot read the emitted lexer tables: %s", o.ReadErr)
+		}
+		lr, err := ref.NewLexRef(e.g.Lex, nil)
+		if err != nil {
+			ev.Inconsistent("edge grammar rejected by the reference: %v", err)
+		}
+		if res := mc.LexProduct(o.Lex, o.Tok.TypeMap, lr, false); res.Mismatch != "" {
+			r.Violate("c20", "e2e-edge "+oneLine(o.Text), fmt.Sprintf("the generated lexer does not read the literals of this grammar as the code points Go assigns: %s (witness %q)\n  grammar: %s", res.Mismatch, string(res.Witness), oneLine(o.Text)), map[string]any{"subject": "end-to-end", "grammar": o.Text})
+			return
+		}
+		r.Distinct("e2ee" + oneLine(o.Text))
 	})
 	sw.checkCross()
 }
